@@ -165,8 +165,15 @@ func runC09(c *sim.Ctx) {
 	imgDir := filepath.Join(dir, "img")
 	refDir := filepath.Join(dir, "ref")
 	llDir := filepath.Join(dir, "ll")
-	for _, d := range []string{imgDir, refDir, llDir} {
+	lnkDir := filepath.Join(dir, "lnk")
+	for _, d := range []string{imgDir, refDir, llDir, lnkDir} {
 		os.MkdirAll(d, 0o755)
+	}
+	// the same image reached through a symbolic link in another directory: SQLite opens
+	// the file the link names and finds the journal next to THAT file
+	lnkPath := filepath.Join(lnkDir, "dblink")
+	if err := os.Symlink(filepath.Join(imgDir, "db"), lnkPath); err != nil {
+		c.Troublef("symlink: %v", err)
 	}
 	seen := map[[32]byte]bool{}
 	writePair := func(d string, f crash.Files) string {
@@ -342,6 +349,15 @@ func runC09(c *sim.Ctx) {
 			judge("fresh handle", func(op ops.Op) ops.Result { return ops.Run(d, op, nil) })
 			d.Close()
 		}
+		if (k+cut)%5 == 0 {
+			if dl, err := sqlittleOpen(lnkPath); err == nil {
+				judge("handle opened through a symbolic link", func(op ops.Op) ops.Result { return ops.Run(dl, op, nil) })
+				dl.Close()
+				c.Probe("opened-through-symlink")
+			} else {
+				c.Probe("refused-through-symlink")
+			}
+		}
 		// long-lived handle that cached the pre-transaction state (one image in six)
 		if (k+cut)%6 == 0 {
 			base := crash.Files{DB: tr.BaseDB, Journal: tr.BaseJrnl, HasJ: tr.HasJrnl}
@@ -432,7 +448,7 @@ func init() {
 	sim.Register(&sim.Prop{
 		ID: "C09", Engine: "E-CRASH", Level: "fault_enumeration", Fn: runC09, NewEnv: NewEnv,
 		Runs: map[string]int{"quick": 32, "thorough": 480},
-		Rule: "per run: a scenario (page size 512/1024/4096/65536, journal mode DELETE/TRUNCATE/PERSIST incl. a second transaction over a persisted journal, cache_size 5 so dirty pages spill before commit, 1-3 transactions of updates/inserts/deletes/rollbacks; one scenario in five starts from a zero-length database whose first recorded transaction creates schema and rows) is executed by real SQLite under strace; the parsed trace must reproduce SQLite's final files byte for byte; then EVERY system-call boundary is a crash point and every write is additionally torn at each 512-byte boundary (first 6 in quick) and 3 drawn byte positions; each distinct (database, journal) pair is read through a fresh sqlittle handle and, one in six, through a long-lived handle that cached the pre-transaction state; oracle: a copy is opened by real SQLite (own recovery + integrity_check) - sqlittle must fail or return exactly that content, a table that does not exist after SQLite's recovery must not be readable, and sqlittle may not fail when the journal is absent, empty or zero-headered (unless the recovered database is empty); evaluations = distinct crash images; non-trivial run = trace with >2 writes; states = (crash phase, journal harmless?, journal mode)",
+		Rule: "per run: a scenario (page size 512/1024/4096/65536, journal mode DELETE/TRUNCATE/PERSIST incl. a second transaction over a persisted journal, cache_size 5 so dirty pages spill before commit, 1-3 transactions of updates/inserts/deletes/rollbacks; one scenario in five starts from a zero-length database whose first recorded transaction creates schema and rows) is executed by real SQLite under strace; the parsed trace must reproduce SQLite's final files byte for byte; then EVERY system-call boundary is a crash point and every write is additionally torn at each 512-byte boundary (first 6 in quick) and 3 drawn byte positions; each distinct (database, journal) pair is read through a fresh sqlittle handle, one in five also through a symbolic link in another directory, and, one in six, through a long-lived handle that cached the pre-transaction state; oracle: a copy is opened by real SQLite (own recovery + integrity_check) - sqlittle must fail or return exactly that content, a table that does not exist after SQLite's recovery must not be readable, and sqlittle may not fail when the journal is absent, empty or zero-headered (unless the recovered database is empty); evaluations = distinct crash images; non-trivial run = trace with >2 writes; states = (crash phase, journal harmless?, journal mode)",
 		Real: append([]string{"unix file pager + journal check on real files; crash images are produced from real SQLite's recorded system calls"}, realAll...),
 		Stub: []string{"the dying writer process is represented by its recorded system calls applied to file copies (process death loses no completed write; power loss is out of the property's quantifier)"},
 		Assumptions: []string{"strace output parsed for openat/pwrite64/write/ftruncate/fsync/fdatasync/unlink/fcntl/close on the database and its journal; fidelity is checked per trace", "images on which SQLite itself cannot recover a consistent database are counted as inconclusive"},
